@@ -14,6 +14,9 @@ def build_obs(tier, tables=None):
         Ob("c16-dupopt-anyfault", "alloc_step.c", ["-DMODE=%d" % MODES["DUPOPT"]], unwind=8, checks="none", flags=["--pointer-check", "--bounds-check"], must_reach=("end of harness", "failure path")),
     ]
     obs += [o for o in parse_step_obs(["CHK_C01", "CHK_C16"], "c16", states=[5], tier=tier) if "secm" in o.key or "sect-" in o.key or "-sec-nv0" in o.key]
+    # a free-form (KEYSTRVAL) section that also declares sub-options: its instances get the declared defaults too
+    from props.parsecommon import _ob
+    obs.append(_ob("c16", ["CHK_C01", "CHK_C16"], 5, "SECKV", 0, 0, 0, extra=("KV_SUBOPTS",)))
     # the one object instances do share with their context - the borrowed search path - is never released
     # through an instance (replacing an instance must not free what its siblings and the root still use)
     extra = [o for o in parse_step_obs(["CHK_C07", "CHK_C16"], "c16path", states=[5], tier=tier, extra_all=("WITH_PATH=2",)) if "sect-" in o.key]
